@@ -182,6 +182,8 @@ func main() {
 	bodyLens := []int{0, 1, 65499, 65500, 65501, 131000, 131001}
 	paths := []struct{ p, script, pathInfo string }{
 		{"/i.php", "/i.php", ""}, {"/i.php/extra/info", "/i.php", "/extra/info"}, {"/dir/", "/dir/index.php", ""}, {"/sub/j.php?x=1&y=2", "/sub/j.php", ""}, {"/U.PHP", "/U.PHP", ""},
+		// the split string occurs twice, first in another letter case: the script ends at the first occurrence
+		{"/U.PHP/pic.php", "/U.PHP", "/pic.php"}, {"/U.PHP/x/view.php/z", "/U.PHP", "/x/view.php/z"}, {"/i.php/next.PHP", "/i.php", "/next.PHP"},
 	}
 	for hi, hs := range hdrSets {
 		for _, bl := range bodyLens {
